@@ -90,9 +90,9 @@ def lake(args, timeout=3600):
 ERR_RE = re.compile(r"error:\s*(?:\./)?(\S+?\.lean):(\d+):(\d+)")
 
 
-def build_modules(mods, timeout=3600):
-    """Build modules (and the driver). Returns (ok, log, {file: [error lines]})."""
-    rc, log = lake(["build"] + mods + ["drv"], timeout)
+def build_modules(mods, timeout=3600, drivers=()):
+    """Build modules (and the model drivers). Returns (ok, log, {file: [error lines]})."""
+    rc, log = lake(["build"] + mods + ["drv_" + d for d in drivers], timeout)
     errs = {}
     for m in ERR_RE.finditer(log):
         errs.setdefault(os.path.normpath(m.group(1)), []).append(int(m.group(2)))
@@ -143,12 +143,12 @@ def leanchecker(mods):
     return bad
 
 
-def check_obligations(prop_mods, tier="quick"):
+def check_obligations(prop_mods, tier="quick", drivers=()):
     """Returns dict: obligations [names], discharged [names], failed {name: reason},
     axioms {name: [...]}, cone [...], log tail."""
     t0 = time.time()
     cn = cone(prop_mods)
-    ok, log, errs = build_modules(prop_mods)
+    ok, log, errs = build_modules(prop_mods, drivers=drivers)
     obligations, failed, discharged = [], {}, []
     thms = {}
     for m in prop_mods:
